@@ -174,12 +174,15 @@ def cases(rng, tier):
     ext = S.gen_cases(random.Random("ext" + str(rng.getstate()[1][0])), tier, 70 if tier == "quick" else 1000, ext=True, prefix="E") + S.xstring_cases()
     # arguments that are the library's own typed wrappers, read from a laxly declared field of another instance
     tp = S.transplant_cases(random.Random("tp" + str(rng.getstate()[1][0])), tier, 60 if tier == "quick" else 800)
-    return base + ext + tp
+    # DecimalNumber (Sem/Decimal.lean): bare, Array items, Map values
+    dec = S.decimal_cases(random.Random("dec" + str(rng.getstate()[1][0])), tier, 40 if tier == "quick" else 500)
+    return base + ext + tp + dec
 
 
 def search_cases(rng, tier):
     return S.gen_cases(rng, "thorough", 400) + inherit_cases(rng, 500) + S.gen_cases(random.Random("ext-s" + str(rng.getstate()[1][0])), "thorough", 200, ext=True, prefix="E") \
-        + S.transplant_cases(random.Random("tp-s" + str(rng.getstate()[1][0])), "thorough", 150)
+        + S.transplant_cases(random.Random("tp-s" + str(rng.getstate()[1][0])), "thorough", 150) \
+        + S.decimal_cases(random.Random("dec-s" + str(rng.getstate()[1][0])), "thorough", 100)
 
 
 def _i(case):
@@ -217,6 +220,8 @@ def judge(case, impl, model):
         if impl.get("out") == "raised" and not impl.get("documented_exc"):
             fails.append((f"error-class:inherited:{case['entry']}:{impl['exc']}", f"{case['entry']} raised {impl['exc']}: {impl.get('msg')}"))
         return None, fails
+    if model is None:
+        return None, []          # no model line (NaN / Infinity given to a DecimalNumber): C02 judges the error class
     dev = S.deviation_findings(case, impl, "ill-formed-instance", None)        # the library's bare formatted-string field vs the documented language
     msg = S.correspondence(case, impl, model) or S.chain_correspondence(case, impl, model)
     fails = list(dev)
